@@ -62,6 +62,10 @@ def main(tier):
             outf = os.path.join(h.tmp, 'out%d.txt' % i)
             if use_file:
                 flags += ['-f', outf]
+                if r.random() < 0.5:
+                    # the output file already exists (an earlier, longer report): -f must replace it
+                    with open(outf, 'w') as f:
+                        f.write('stale line of an earlier run\n' * r.choice([1, 50, 2000]))
             if cmd == 'list':
                 fmt_ = r.choice(LIST_FORMATS + ['xml'])
                 exposure = r.random() < 0.3
@@ -114,9 +118,15 @@ def main(tier):
                 run.report(None, 'partialout-%d' % i, payload, 'the command failed but printed a report')
                 continue
             # resource-info API vs directory API
-            if cmd == 'list' and not stop:
-                a, bb = h.run([{'id': 'x', 'cmd': 'list', 'dir': d}, {'id': 'y', 'cmd': 'infos', 'dir': d}])
-                if a['outcome'] != bb['outcome'] or sorted(json.dumps(e, sort_keys=True) for e in a['conns']) != sorted(json.dumps(e, sort_keys=True) for e in bb['conns']):
+            if cmd == 'list':
+                a, bb = h.run([{'id': 'x', 'cmd': 'list', 'dir': d, 'stop': stop, 'focus': focus, 'exposure': exposure},
+                               {'id': 'y', 'cmd': 'infos', 'dir': d, 'stop': stop, 'focus': focus, 'exposure': exposure}])
+                ck = lambda o: sorted(json.dumps(e, sort_keys=True) for e in (o.get('conns') or []))
+                # with stop-on-error and an unreadable file the directory API fails while scanning; the resource-info API is then handed
+                # whatever was scanned before the failure and has nothing to be compared with
+                if stop and a['outcome'] == 'err':
+                    pass
+                elif a['outcome'] != bb['outcome'] or ck(a) != ck(bb):
                     run.report(None, 'infos-%d' % i, dict(payload, dirpath=a.get('conns'), infos=bb.get('conns')), 'ConnlistFromResourceInfos differs from ConnlistFromDirPath')
                     continue
         run.cov['traces_validated_against_impl'] = run.cov['evaluations']
